@@ -422,6 +422,7 @@ def run(repo, rep, tier):
     _null_vs_empty(repo, rep, tp)
     _attr_own_condition(repo, rep)
     _position_by_index(repo, rep)
+    real_text_rule(repo, rep)
     # the datetime writer str(CIMDateTime) is part of every VALUE written for
     # a datetime: same exact-arithmetic rule as C06.R8
     from .c06 import _r8_exact_fields
@@ -865,3 +866,68 @@ def _position_by_index(repo, rep):
     r14.ob(loops >= 1, 'loops-scanned', {'loops': loops})
     if loops < 1:
         raise AnalysisError('C01.R14: only %d loops scanned' % loops)
+
+
+def real_text_rule(repo, rep):
+    """C01.R15: the text written for a real32 / real64 value determines the
+    value.  On every path of atomic_to_cim_xml() for a real, the returned
+    string is the complete result of a conversion with enough significant
+    digits (9 for real32, 17 for real64), possibly with text added - never
+    a piece of it (the significand without the exponent: 1E+22 is sent as
+    1.0) and never a conversion with fewer digits.  Private helpers are
+    inlined; pwsa/realtext.py is the interpreter."""
+    from ..inline import Flat
+    from .. import realtext
+    r15 = rep.rule('C01.R15', 'real values are written with their complete, '
+                   'sufficiently precise text')
+    f = repo.func('pywbem/_cim_types.py', 'atomic_to_cim_xml')
+    if f is None:
+        raise AnalysisError('atomic_to_cim_xml vanished')
+    r15.functions.add(f.fq)
+    fl = Flat(f)
+    pn = f.params[0]
+
+    def which(pth):
+        """'real32' / 'real64' when the path is the branch of that type"""
+        for t, pol in pth.facts:
+            if pol and isinstance(t, ast.Call) and \
+                    dotted(t.func) == 'isinstance' and \
+                    norm(t.args[0]) == pn:
+                names = {norm(x) for x in (
+                    t.args[1].elts if isinstance(t.args[1], ast.Tuple)
+                    else [t.args[1]])}
+                if 'Real32' in names:
+                    return 'real32'
+                if names & {'Real64', 'float', 'CIMFloat'}:
+                    return 'real64'
+        return None
+    seen = {}
+    for kind, need in (('real32', 9), ('real64', 17)):
+        res = realtext.analyse(fl, {pn}, need,
+                               select=lambda p_, k=kind: which(p_) == k)
+        seen[kind] = len(res)
+        for pth, verdict, detail in res:
+            r15.sites += 1
+            if verdict == 'undecided':
+                r15.undecided.append('%s: %s' % (kind, detail))
+                continue
+            r15.ob(verdict == 'ok', '%s|%s' % (kind, detail),
+                   {'type': kind, 'digits_needed': need})
+            if verdict != 'ok':
+                rep.finding(
+                    r15, f.qualname, 'return %s' % detail,
+                    '%s:%s' % (kind, verdict), 'pywbem/_cim_types.py',
+                    getattr(pth.ret_stmt, 'lineno', f.node.lineno),
+                    {'partial-text': 'a %s value is written as a piece of '
+                     'its formatted text (e.g. the significand without the '
+                     'exponent): 1E+22 is sent as 1.0 and comes back as '
+                     'another value',
+                     'precision': 'a %s value is formatted with fewer than '
+                     'the digits that determine it: the value that comes '
+                     'back differs in the last bits',
+                     'constant': 'a %s value is written as a constant that '
+                     'no comparison of its text on this path justifies'
+                     }[verdict] % kind)
+    if not seen['real32'] or not seen['real64']:
+        raise AnalysisError('atomic_to_cim_xml: branches for the real types '
+                            'not found (%s)' % seen)
